@@ -42,13 +42,14 @@ SCALE = 1
 
 
 class SymEx:
-    def __init__(self, fn, payload_place=None, max_paths=256, max_steps=4000, call_hook=None, facts=None):
+    def __init__(self, fn, payload_place=None, max_paths=256, max_steps=4000, call_hook=None, facts=None, track_index=False):
         self.facts = facts
         self.fn = fn
         self.payload_place = payload_place  # place (local, proj) of the matched enum value
         self.max_paths = max_paths * SCALE
         self.max_steps = max_steps * SCALE
         self.call_hook = call_hook
+        self.track_index = track_index
         self.paths = []
         self.steps = 0
 
@@ -100,7 +101,7 @@ class SymEx:
                 d, f = proj[n], proj[n + 1]
                 if isinstance(d, list) and d[0] == "d" and isinstance(f, list) and f[0] == "f":
                     e = ("pay", d[2], f[1])
-                    return self._project(e, proj[n + 2 :])
+                    return self._project(e, proj[n + 2 :], path)
         key = loc
         e = path.env.get(key)
         if e is None:
@@ -108,9 +109,9 @@ class SymEx:
                 e = ("arg", loc)
             else:
                 e = ("unk", "_%d" % loc)
-        return self._project(e, proj)
+        return self._project(e, proj, path)
 
-    def _project(self, e, proj):
+    def _project(self, e, proj, path=None):
         for el in proj:
             if el == "*":
                 e = e[1] if e[0] == "ref" else ("deref", e)
@@ -121,6 +122,9 @@ class SymEx:
                     e = ("fld", e, el[2] if (el[2] and "::" in el[2]) else el[1])
             elif isinstance(el, list) and el[0] == "d":
                 e = ("down", e, el[2])
+            elif self.track_index and path is not None and isinstance(el, list) and el[0] == "i":
+                # `a[i]`: keep the symbolic value of the index (only for rules that ask for it)
+                e = ("idx", e, path.env.get(el[1]) or (("arg", el[1]) if 1 <= el[1] <= self.fn.d["argc"] else ("unk", "_%d" % el[1])))
             else:
                 e = ("idx", e)
         return e
